@@ -73,7 +73,12 @@ type Builder struct {
 	Contracts *contract.Set
 	imp       types.Importer
 	Sigs      SigTable
+	// Prefixes: plugin name -> default function prefix (read from the plugins' NewPlugin calls)
+	Prefixes map[string]string
 }
+
+// PrefixOf gives the default prefix of a plugin's functions ("" if unknown).
+func (b *Builder) PrefixOf(plugin string) string { return b.Prefixes[plugin] }
 
 func NewBuilder(cs *contract.Set) *Builder {
 	return &Builder{Contracts: cs, imp: importer.ForCompiler(token.NewFileSet(), "source", nil), Sigs: SigTable{}}
@@ -194,6 +199,9 @@ func (in *Instance) canon(t *geval.SymType) *geval.SymType {
 // TypeExpr renders a symbolic type as a Go type expression over the prelude.
 func (in *Instance) TypeExpr(t *geval.SymType) string {
 	t = in.canon(t)
+	if in.Path.Preds["derive.IsError("+t.R().Desc+")"] == geval.Yes {
+		return "error" // the generator has established that the type is the error interface
+	}
 	f := in.fact(t)
 	if f == nil {
 		return in.declOpaque(t)
@@ -904,4 +912,65 @@ func (in *Instance) sigText(params, results *geval.SymTuple) string {
 		s += " (" + in.tupleText(results) + ")"
 	}
 	return s
+}
+
+// ConcretePackage turns the schematic program of a path that defines a helper
+// into a real package: the prelude's type declarations (user methods get a
+// panicking body) and one call of the plugin's function on zero values of the
+// requested types. Running the real goderive on it and compiling the result
+// replays a text-level violation (does not parse / does not type-check)
+// against the real code. ok is false when the path does not define a helper of
+// a plugin (inner generator functions: no replay).
+func (in *Instance) ConcretePackage(prefixOf func(plugin string) string) (src string, ok bool) {
+	if in.File == nil && in.ParseErr == nil {
+		return "", false
+	}
+	var h *geval.Hole
+	var hn []string
+	for n := range in.Helpers {
+		hn = append(hn, n)
+	}
+	sort.Strings(hn)
+	for _, n := range hn {
+		if strings.Contains(in.Src, "\nfunc "+n+"(") && !strings.Contains(in.Src, "\nfunc "+n+"(") == false {
+			// defined with a body?
+			i := strings.Index(in.Src, "\nfunc "+n+"(")
+			j := strings.Index(in.Src[i+1:], "\n")
+			if j > 0 && strings.HasSuffix(strings.TrimSpace(in.Src[i+1:i+1+j]), "{") {
+				h = in.Helpers[n]
+				break
+			}
+		}
+	}
+	if h == nil {
+		return "", false
+	}
+	prefix := prefixOf(h.Plugin)
+	if prefix == "" {
+		return "", false
+	}
+	var b strings.Builder
+	b.WriteString("package replay\n\n")
+	for _, t := range sortedFactTypes(in.Path.Facts) {
+		if f := in.Path.Facts[t]; f.Kind == geval.KArray {
+			fmt.Fprintf(&b, "const %sArrLen%d = 3\n", Mark, t.ID)
+		}
+	}
+	for _, hh := range in.Path.Holes {
+		if hh.Kind == "arraylen" {
+			fmt.Fprintf(&b, "const %sArrLen%d = 3\n", Mark, hh.ID)
+		}
+	}
+	var args []string
+	for _, t := range h.Typs {
+		args = append(args, "*new("+in.TypeExpr(t)+")")
+	}
+	for _, d := range in.typeDecl {
+		b.WriteString(d + "\n")
+	}
+	for _, d := range in.funcDecl {
+		b.WriteString(d + " { panic(\"user method\") }\n")
+	}
+	fmt.Fprintf(&b, "\nfunc %suse() {\n\t%s(%s)\n}\n", Mark, prefix, strings.Join(args, ", "))
+	return b.String(), true
 }
